@@ -388,7 +388,7 @@ func genC14(c *Ctx) *Plan {
 	r := c.R
 	p := &Plan{Cfg: labCfg(r), P: map[string]int64{}, YieldOff: []string{"*"}}
 	p.P["msg"] = int64(r.intn(64))
-	p.P["mode"] = int64(r.intn(3)) // 0: bit flips (complete for the sampled message), 1: structural variants, 2: random splices/truncations
+	p.P["mode"] = int64(r.pick(0, 1, 2, 3)) // 3: key rotation interleaved with a stream in flight; 0: bit flips (complete for the sampled message), 1: structural variants, 2: random splices/truncations
 	p.P["extra_keys"] = int64(r.intn(3))
 	return p
 }
@@ -606,6 +606,95 @@ func execC14(c *Ctx) {
 		}
 		c.Reach("random_variants")
 	}
+	if p.param("mode", 0) == 3 {
+		// Key rotation racing a stream in flight: the frame is sealed under an installed
+		// secondary key; the receiver has consumed the first k bytes when the key is
+		// removed; the rest arrives afterwards. Only currently installed keys may open it.
+		var sg *capMsg
+		for i := range caps {
+			if caps[i].Stream && caps[i].Kind == []string{"s-user", "s-pushpull", "s-ping"}[int(p.param("msg", 0))%3] {
+				sg = &caps[i]
+			}
+		}
+		if sg != nil {
+			k2 := simKey(16, 0x55)
+			body := sg.Buf[labelLen:]
+			aad := append(append([]byte(nil), body[:5]...), []byte(p.Cfg.Label)...)
+			inner, err := decryptPayload(l.S.conf.Keyring.GetKeys(), append([]byte(nil), body[5:]...), aad)
+			if err != nil {
+				c.Res.HarnessErr = "cannot open genuine stream"
+				c.Res.OK = false
+				return
+			}
+			var out bytes.Buffer
+			vsn := l.S.m.encryptionVersion()
+			out.WriteByte(byte(encryptMsg))
+			ln := encryptedLength(vsn, len(inner))
+			out.Write([]byte{byte(ln >> 24), byte(ln >> 16), byte(ln >> 8), byte(ln)})
+			aad2 := append(append([]byte(nil), out.Bytes()[:5]...), []byte(p.Cfg.Label)...)
+			_ = encryptPayload(vsn, k2, inner, aad2, &out)
+			frame := out.Bytes()
+			if p.Cfg.Label != "" {
+				frame = append(makeLabelHeader(p.Cfg.Label, nil), frame...)
+			}
+			streamTwoPhase := func(cut int, between func()) reaction {
+				mk := l.mark()
+				var reply []byte
+				done := false
+				go func() {
+					defer func() { done = true }()
+					cn, err := l.att.ep.DialAddressTimeout(Address{Addr: l.R.ep.addr, Name: "rcv"}, time.Second)
+					if err != nil {
+						return
+					}
+					defer cn.Close()
+					_, _ = cn.Write(frame[:cut])
+					synctestWaitQuiet(l.sim)
+					between()
+					_, _ = cn.Write(frame[cut:])
+					_ = cn.SetReadDeadline(time.Now().Add(l.R.conf.TCPTimeout + 100*time.Millisecond))
+					buf := make([]byte, 65536)
+					for {
+						k, rerr := cn.Read(buf)
+						reply = append(reply, buf[:k]...)
+						if rerr != nil {
+							break
+						}
+					}
+				}()
+				l.sim.RunUntil(l.sim.Now()+2*l.R.conf.TCPTimeout+time.Second, func() bool { return done })
+				l.sim.Settle()
+				rc := l.since(mk)
+				rc.Reply = l.classifyReply(reply)
+				return rc
+			}
+			cuts := []int{labelLen + 1, labelLen + 3, labelLen + 5, labelLen + 5 + 13, len(frame) - 1}
+			for _, cut := range cuts {
+				if cut <= 0 || cut >= len(frame) {
+					continue
+				}
+				// control: key stays installed -> same reaction as the original
+				l.freshR()
+				_ = l.R.conf.Keyring.AddKey(k2)
+				ctl := streamTwoPhase(cut, func() {})
+				if ctl.key() != (func() string { o := orig; return o.key() })() && sg.Kind == g.Kind {
+					c.Violate("installed-secondary-key-rejected", "", "rcv", "stream %s sealed under an installed secondary key, delivered in two pieces (cut %d): reaction differs from the original\n  original: %s\n  got: %s", sg.Kind, cut, orig.key(), ctl.key())
+					return
+				}
+				l.freshR()
+				_ = l.R.conf.Keyring.AddKey(k2)
+				R := l.R
+				variants++
+				rc := streamTwoPhase(cut, func() { _ = R.conf.Keyring.RemoveKey(k2) })
+				if !rc.none() || (rc.Reply != "" && rc.Reply != "none" && rc.Reply != "error-reply") {
+					c.Violate("removed-key-still-accepted", "", "rcv", "stream %s sealed under key K2: the receiver had consumed %d of %d bytes when K2 was removed from its keyring, the rest arrived afterwards and was still acted on: %s", sg.Kind, cut, len(frame), rc.key())
+					return
+				}
+			}
+			c.Reach("rotation_interleave")
+			l.freshR()
+		}
+	}
 	c.Res.Nontrivial = variants > 0
 	c.Stat("variants", int64(variants))
 	c.Stat("variants_equivalent_to_original", int64(accepted))
@@ -619,4 +708,13 @@ func boolInt(b bool) int {
 		return 1
 	}
 	return 0
+}
+
+// synctestWaitQuiet: called from a harness goroutine; gives the library goroutines
+// time to consume what was written (a tiny virtual sleep; the driver keeps running).
+func synctestWaitQuiet(sim *Sim) {
+	select {
+	case <-time.After(time.Millisecond):
+	case <-sim.quit:
+	}
 }
